@@ -417,6 +417,11 @@ class Evaluator:
                     return {"list": list, "tuple": tuple, "set": set, "dict": dict, "OrderedDict": dict, "frozenset": frozenset}[f.id](*args)
                 if f.id == "str":
                     return str(args[0])
+                if f.id == "format" and f.id not in self.env and not e.keywords and args and all(type(a) in (str, int, float, bool) for a in args):
+                    try:
+                        return format(*args)
+                    except (ValueError, TypeError) as exc:
+                        raise EvalRaise(type(exc).__name__, e)
                 if f.id in ("ord", "chr", "hex", "oct", "bin", "repr", "round", "divmod", "pow") and f.id not in self.env and not e.keywords:
                     if f.id == "repr" and not isinstance(args[0], (str, int, float, bool, type(None), tuple, list)):
                         raise Unknown("repr of a value outside the finite domain")
